@@ -280,7 +280,7 @@ def run(check, unrecognised):
 		'translator harness/gens/c01.py + harness/astdump.py: each generated schema as /repo\'s own parser + post-processor expand it, printed as a Gallina term',
 		'harness/dialect.py (random schemas of the shipped dialect), harness/codec.py (admissible values, object <-> tree)',
 		'modelled, not verified: the generated codec classes themselves (tied by correspondence per generated program), CPython semantics']
-	check.assume += ['"dialect the shipped schemas use" = harness/dialect.py dialect() (14 listed restrictions, each with the code location forcing it)']
+	check.assume += ['"dialect the shipped schemas use" = harness/dialect.py dialect() (15 listed restrictions, each with the code location forcing it)']
 	check.extra['rule'] = 'N random dialect schemas of 8-25 declarations (features rotated so that every construct of the property text occurs in the batch) -> ' \
 		'real CLI + generator twice -> import -> wf_schema by the kernel -> for every class of the generated module: admissible values ' \
 		'(boundary ints, flag subsets, array lengths 0-3, both arms of conditionals) -> serialize/size/deserialize/factory, mutated encodings -> ' \
